@@ -153,7 +153,7 @@ theorem cacheEntries_mono (c : Cfg) (s0 s : St) (ok : CfgOK c s0) (top : LinksTo
       rw [hal] at this
       exact this
     exact anyOverlap_cons_mono _ _ _
-      (refs_mono (ok.cleanD d (sub d hd)) (ok.cleanD d' (sub d' hd')) (ok.cleanF a) hin h1)
+      (refs_mono (ok.cleanD d (sub d hd)) (ok.cleanD d' (sub d' hd')) (ok.noDbl d (sub d hd)) (ok.noDbl d' (sub d' hd')) (ok.cleanF a) hin h1)
   · have := top d (sub d hd) hal d' (sub d' hd') (by simpa using ht') hin
     rw [this]
     exact ha.2
